@@ -149,6 +149,7 @@ impl SimNode {
             let mut d = disk.lock().unwrap();
             d.oracle = Some(oracle.clone());
             d.sm_img = Some(sm_img.clone());
+            d.snap_dir = Some(base_cfg.raft.snapshot.snapshots_dir.clone());
         }
         SimNode {
             id,
